@@ -4,7 +4,7 @@ from contracts import C46, C36
 
 LEVEL = "other"
 MANIFEST_ENTRY = {
-    "text": "BOUNDED stand-in for the segment-fetching core, not a proof. The real SegmentFetcher is run natively with fake shares under EVERY schedule of 'share found', 'request answered (good / corrupt / dead)', 'request overdue' and 'no more shares' for every configuration of up to 3 shares over share numbers {0,1,2} on two servers and k in 1..3 (exhaustive DFS; seeded random schedules for 4 shares; about 1.5 million complete schedules in the quick tier). Contract at the end of every schedule: if at least k distinct share numbers had a good share, the fetcher handed exactly k-or-more validated blocks of distinct share numbers to process_blocks -- whatever happened to the other shares (corrupt, dead, overdue, late) -- and otherwise it reported NoSharesError / NotEnoughSharesError and never delivered data; exactly one report per fetch. The decoding of those k blocks into the segment is the C36 contract (re-run here); the integrity of each block is C02.",
+    "text": "BOUNDED stand-in for the segment-fetching core, not a proof. The real SegmentFetcher is run natively with fake shares under EVERY schedule of 'share found', 'request answered (good / corrupt / dead)', 'request overdue' and 'no more shares' for every configuration of up to 3 shares over share numbers {0,1,2} on two servers and k in 1..3 (exhaustive DFS; seeded random schedules for 4 shares; about 1.5 million complete schedules in the quick tier). Contract at the end of every schedule: if at least k distinct share numbers had a good share, the fetcher handed exactly k-or-more validated blocks of distinct share numbers to process_blocks -- whatever happened to the other shares (corrupt, dead, overdue, late) -- and otherwise it reported NoSharesError / NotEnoughSharesError and never delivered data; exactly one report per fetch. Small-state run-time contracts of the two neighbours (all states below a bound): ShareFinder.loop declares 'no more shares' only when no request, overdue or not, is still in flight, and Share._got_data marks exactly the undelivered tail of a short answer as unavailable (so intact shares are not abandoned). The decoding of those k blocks into the segment is the C36 contract (re-run here); the integrity of each block is C02.",
     "note": "Availability of the whole read additionally depends on ShareFinder (which servers are asked, when it declares 'no more shares') and on each Share's own state machine and timers, which are reactor-driven and not explored; with those the property quantifies over unbounded event orders and is outside function contracts. Nothing here is counted as proved.",
     "technique": "bounded exhaustive exploration of event schedules of the real class against a run-time contract (stand-in for deductive verification, labelled bounded); decode site by contract (C36)",
 }
@@ -16,6 +16,7 @@ NOT_DECIDED = "ShareFinder, Share state machine, more than 4 shares / 2 servers.
 
 def extra_checks(rep, tier):
     C46.fetcher_check(rep, tier, "C03")
+    C46.small_state_checks(rep, "C03")
 
 
 def contracts(tier):
